@@ -87,6 +87,17 @@ def constructed_cases(ctx):
     cases.append(("disulfide-same-number-E42-F42", C.join(same), []))
     twin = [C.set_resid(ln, chain="E", num=42, icode=("A" if ln[21] == "F" else " ")) if C.is_atom(ln) else ln for ln in pair]
     cases.append(("disulfide-twins-E42-E42A", C.join(twin), []))
+    # alternate locations together with a titrate-only list: the listed residues are reported in every conformation
+    from . import c14
+    frs = dict(c14.fragments(ctx))
+    if "frag-1HPX-A20+7+altlocs" in frs:
+        al = frs["frag-1HPX-A20+7+altlocs"]
+        rids = []
+        for ln in al:
+            if C.is_atom(ln) and C.resid(ln) not in rids:
+                rids.append(C.resid(ln))
+        cases.append(("altlocs -i some", C.join(al), ["-i", ",".join(f"{r[0]}:{r[1]}" for r in rids[::2])]))
+        cases.append(("altlocs -i all", C.join(al), ["-i", ",".join(f"{r[0]}:{r[1]}" for r in rids)]))
     # chain selection and titrate-only on a two-chain construct
     two = no_oxt(a) + [C.TER] + no_oxt(b)
     cases.append(("two-chains -c B", C.join(two), ["-c", "B"]))
